@@ -61,6 +61,18 @@ _arith('uint', 'u64')
 ARITH_TWINS = [k for k in KANI if k.startswith('arith_')]
 
 PROPS = {
+    'C04': dict(
+        units=['value_cmp', 'value_arith'],
+        not_covered=['double comparisons in Verus (result kind only; Kani float twins decide the order laws)',
+                     'element-wise list equality and map equality (std::iter::zip / HashMap iteration have no Verus support: those two match arms are dropped, see rewrites)',
+                     'laws of the string/bytes/timestamp/duration orders are std\'s and chrono\'s Ord (assumed)'],
+        assumptions=['min/max/sort are decided in unit builtins (see functions_under_contract)'],
+    ),
+    'C05': dict(
+        units=['value_cmp', 'value_arith'],
+        not_covered=[],
+        assumptions=[],
+    ),
     'C03': dict(
         units=['value_arith'],
         kani_quick=[],
